@@ -111,6 +111,18 @@ func valueSeeds() []valSeed {
 		{"uuids", []uuid.UUID{u, u}, []*TD{I, sl(td("uuid")), sl(I), sl(S)}},
 		{"bigs", []*big.Int{bi, big.NewInt(5)}, []*TD{I, sl(td("bigint")), sl(I), sl(td("bigrat"))}},
 		{"deep", [][][]interface{}{{{1, "x"}, {}}, {}}, []*TD{I, sl(sl(sl(I))), sl(I)}},
+		// lists whose elements are lists of different element types (ListTypeSlice picks a slice type per list)
+		{"listsmixed", []interface{}{[]string{"abc"}, []byte("0123456789abcdef")}, []*TD{I, sl(I)}},
+		{"listsmixed3", []interface{}{[]int{1}, []string{"a"}, []float64{1.5}, []interface{}{nil}}, []*TD{I, sl(I)}},
+		{"listssame", []interface{}{[]string{"a"}, []string{"b", "c"}}, []*TD{I, sl(I), sl(sl(S))}},
+		{"listsobj", []interface{}{Pt{1, 2}, Pt{3, 4}}, []*TD{I, sl(I), sl(reg("Pt"))}},
+		{"listsobjmixed", []interface{}{Pt{1, 2}, HKey{1, "a"}, &Pt{3, 4}}, []*TD{I, sl(I)}},
+		// registered structs outside the model's registry: as values and as map keys (StructTypeValue makes them keys by value)
+		{"hkey", HKey{1, "a"}, []*TD{I, reg("HKey"), pt(reg("HKey"))}},
+		{"key", Key{1, Labels{[]string{"a"}}}, []*TD{I, reg("Key")}},
+		{"hkeymap", map[HKey]int{{1, "a"}: 1}, []*TD{I, mp(reg("HKey"), td("int")), mp(I, I)}},
+		{"ptmap", map[Pt]string{{1, 2}: "a"}, []*TD{I, mp(reg("Pt"), S), mp(I, I)}},
+		{"node", &Node{Name: "n", Next: &Node{Name: "m"}, Kids: []*Node{{Name: "k"}}, Dict: map[string]*Node{"d": {Name: "d"}}, Any: 1}, []*TD{I, reg("Node"), pt(reg("Node"))}},
 		// longer than what a container reserves up front (io/count.go minPrealloc): the growth paths
 		{"ints17", seqInts(17), []*TD{I, sl(td("int")), sl(I), ar(20, td("int")), B, mp(td("int"), td("int"))}},
 		{"ints40", seqInts(40), []*TD{I, sl(td("int")), sl(td("int8")), sl(pt(td("int")))}},
